@@ -45,7 +45,10 @@ class MembershipMonitor(Ext):
 
     # -- configuration as defined by the log ------------------------------------------------
     def on_proc_start(self, p):
-        members = set(n for n in p.transport.nodes)
+        # the list the process was constructed with; membership entries it read from its journal are folded on top
+        # (position 0), exactly as for entries it appends later
+        so = getattr(p, 'start_others', None)
+        members = set(so) if so is not None else set(n for n in p.transport.nodes)
         if p.voter:
             members.add(p.key)
         self.base[p] = (members, 0)
@@ -201,6 +204,10 @@ class MemberSim(Sim):
         return sorted(self.mm.committed_members)
 
     def boot_members(self, p):
+        if self.cfg.get('restart_with_first_list') and p.conf.journalFile and getattr(p, 'first_list', None) is not None \
+                and self.rng.random() < 0.7:
+            # a journaled node is started again with the arguments of its first start (the usual way to run one)
+            return sorted(set(p.first_list) | {p.key})
         return sorted(self.mm.committed_members | {p.key})
 
     def running(self, key):
